@@ -401,8 +401,28 @@ pub fn exec(st: &mut Store, op: &Op) -> Outcome {
             AttrsClear(_) => { xot.attributes_mut(a.unwrap()).clear(); None }
             NsClear(_) => { xot.namespaces_mut(a.unwrap()).clear(); None }
             AttrsGetMutSet(_, n, v) => { if let Some(x) = xot.attributes_mut(a.unwrap()).get_mut(reg_names[n]) { *x = v; } None }
-            AttrsEntryOrInsert(_, n, v) => { let mut m = xot.attributes_mut(a.unwrap()); m.entry(reg_names[n]).or_insert(v); None }
-            AttrsEntryModify(_, n, v) => { let mut m = xot.attributes_mut(a.unwrap()); let v2 = v.clone(); m.entry(reg_names[n]).and_modify(|e| *e = v2).or_insert(format!("new:{}", v)); None }
+            // the equivalent spellings of the entry API take turns (chosen by the length of the value, so that a replay makes the
+            // same choice): or_insert / or_insert_with / VacantEntry::insert, and and_modify / OccupiedEntry::get_mut, into_mut, insert
+            AttrsEntryOrInsert(_, n, v) => {
+                let mut m = xot.attributes_mut(a.unwrap());
+                match v.chars().count() % 3 {
+                    0 => { m.entry(reg_names[n]).or_insert(v); }
+                    1 => { m.entry(reg_names[n]).or_insert_with(|| v); }
+                    _ => match m.entry(reg_names[n]) { xot::Entry::Vacant(e) => { e.insert(v); } xot::Entry::Occupied(e) => { let _ = e.get().len(); } },
+                }
+                None
+            }
+            AttrsEntryModify(_, n, v) => {
+                let mut m = xot.attributes_mut(a.unwrap());
+                let v2 = v.clone();
+                match v.chars().count() % 4 {
+                    0 => { m.entry(reg_names[n]).and_modify(|e| *e = v2).or_insert(format!("new:{}", v)); }
+                    1 => match m.entry(reg_names[n]) { xot::Entry::Occupied(mut e) => { *e.get_mut() = v2; } xot::Entry::Vacant(e) => { e.insert(format!("new:{}", v)); } },
+                    2 => match m.entry(reg_names[n]) { xot::Entry::Occupied(e) => { *e.into_mut() = v2; } xot::Entry::Vacant(e) => { e.insert(format!("new:{}", v)); } },
+                    _ => match m.entry(reg_names[n]) { xot::Entry::Occupied(mut e) => { let _old = e.insert(v2); } xot::Entry::Vacant(e) => { e.insert(format!("new:{}", v)); } },
+                }
+                None
+            }
             AttrsEntryRemove(_, n) => { let mut m = xot.attributes_mut(a.unwrap()); if let xot::Entry::Occupied(e) = m.entry(reg_names[n]) { e.remove(); } None }
             NsGetMutSet(_, p, n) => { if let Some(x) = xot.namespaces_mut(a.unwrap()).get_mut(reg_pfx[p]) { *x = reg_ns[n]; } None }
             NsEntryOrInsert(_, p, n) => { let mut m = xot.namespaces_mut(a.unwrap()); m.entry(reg_pfx[p]).or_insert(reg_ns[n]); None }
